@@ -26,9 +26,13 @@ type checkEnv struct {
 	havocked    map[string]int
 	inlined     map[string]int
 	calls       map[string]int
+	outVals     []*Value
+	outRow      []Term
+	inSpecs     []*InSpec
 }
 
 type FuncReport struct {
+	InSpecs     []*InSpec
 	Name        string
 	Key         string
 	Contract    *FuncContract
@@ -132,6 +136,7 @@ func (e *Engine) verifyFunc(fn *ssa.Function, fc *FuncContract) (rep *FuncReport
 		sort.Strings(rep.Trusts)
 		rep.Trivial = ce.trivial
 		rep.Havocked, rep.Inlined, rep.Calls = ce.havocked, ce.inlined, ce.calls
+		rep.InSpecs = ce.inSpecs
 		rep.GenMs = time.Since(t0).Milliseconds()
 	}()
 	if len(fn.Blocks) == 0 {
@@ -198,6 +203,16 @@ func (e *Engine) verifyFunc(fn *ssa.Function, fc *FuncContract) (rep *FuncReport
 		env := &SpecEnv{x: x, vars: vars, st: r.st, old: fr.entrySt, fn: fn}
 		fr.reach = r.cond
 		fr.cur = r.st
+		ce.outVals = r.vals
+		ce.outRow = nil
+		for _, v := range r.vals {
+			var row Term
+			if sl, ok := v.T.Underlying().(*types.Slice); ok && len(e.layout(sl.Elem())) == 1 {
+				key, _ := e.heapKey("M", sl.Elem(), 0)
+				row = Select(x.heapGet(r.st, key), v.C[0])
+			}
+			ce.outRow = append(ce.outRow, row)
+		}
 		for i, en := range fc.Ensures {
 			t, err := env.EvalBool(en.E)
 			if err != nil {
@@ -300,77 +315,11 @@ func (x *Exec) checkFrame(fr *Frame, fc *FuncContract, r RetEdge, envPre *SpecEn
 
 // collectInputs records the model variables that describe the inputs.
 func (x *Exec) collectInputs(fr *Frame, st *State) {
-	var out []ModelVar
-	seen := 0
-	var add func(name string, v *Value, depth int)
-	add = func(name string, v *Value, depth int) {
-		if v == nil || v.T == nil || seen > 400 {
-			return
-		}
-		l := x.eng.layout(v.T)
-		switch u := v.T.Underlying().(type) {
-		case *types.Pointer:
-			out = append(out, ModelVar{name + "#ref", v.C[0]})
-			seen++
-			if depth < 2 && v.P == nil {
-				if _, isS := u.Elem().Underlying().(*types.Struct); isS || isGhostType(u.Elem()) {
-					add(name+".*", x.Load(st, x.ptrOf(v)), depth+1)
-				}
-			}
-			return
-		case *types.Slice:
-			out = append(out, ModelVar{name + "#ref", v.C[0]}, ModelVar{name + "#len", v.C[2]}, ModelVar{name + "#cap", v.C[3]})
-			seen += 3
-			if len(x.eng.layout(u.Elem())) == 1 && x.eng.layout(u.Elem())[0].Sort == SInt {
-				key, _ := x.eng.heapKey("M", u.Elem(), 0)
-				row := Select(x.heapGet(st, key), v.C[0])
-				for i := 0; i < 40; i++ {
-					out = append(out, ModelVar{fmt.Sprintf("%s[%d]", name, i), Select(row, Add(v.C[1], IntLit(int64(i))))})
-				}
-				seen += 40
-			}
-			return
-		case *types.Struct:
-			if isGhostType(v.T) {
-				for j, cp := range l {
-					if cp.Sort == SInt || cp.Sort == SBool {
-						out = append(out, ModelVar{name + "." + cp.Path, v.C[j]})
-					}
-				}
-				return
-			}
-			off := 0
-			for i := 0; i < u.NumFields(); i++ {
-				n := len(x.eng.layout(u.Field(i).Type()))
-				add(name+"."+u.Field(i).Name(), x.eng.sub(v, off, n, u.Field(i).Type()), depth)
-				off += n
-			}
-			return
-		case *types.Basic:
-			if isString(v.T) {
-				out = append(out, ModelVar{name + "#len", v.C[2]})
-				for i := 0; i < 40; i++ {
-					out = append(out, ModelVar{fmt.Sprintf("%s[%d]", name, i), Select(v.C[0], Add(v.C[1], IntLit(int64(i))))})
-				}
-				seen += 41
-				return
-			}
-		}
-		for j, cp := range l {
-			if j < len(v.C) && (cp.Sort == SInt || cp.Sort == SBool) {
-				n := name
-				if cp.Path != "" {
-					n += "." + cp.Path
-				}
-				out = append(out, ModelVar{n, v.C[j]})
-				seen++
-			}
-		}
-	}
+	var flat []ModelVar
 	for _, p := range fr.fn.Params {
-		add(p.Name(), fr.vals[p], 0)
+		x.cur.inSpecs = append(x.cur.inSpecs, x.buildInSpec(p.Name(), fr.vals[p], st, 0, &flat))
 	}
-	x.cur.inputs = out
+	x.cur.inputs = flat
 }
 
 // verifyLemma proves a lemma from the axioms and earlier lemmas.
